@@ -263,6 +263,14 @@ def _through_code_under_test(tb):
         fn = fr.filename.replace("\\", "/")
         if "/bob/learn/em/" in fn:
             hit = "%s:%s" % (os.path.basename(fn), fr.name)
+    if hit is None:
+        # a lazy (Dask) result handed back by the code under test fails when the check evaluates it: the graph was
+        # built by the code under test (the harness only supplies plain input arrays / bags), no frame of it is on
+        # the stack any more
+        frames = [fr.filename.replace("\\", "/") for fr in traceback.extract_tb(tb)]
+        if any("/site-packages/dask/" in fn for fn in frames) and "/vf/" not in frames[-1]:
+            last = traceback.extract_tb(tb)[-1]
+            hit = "lazy result, %s:%s" % (os.path.basename(last.filename), last.name)
     return hit
 
 
